@@ -152,7 +152,7 @@ fn run_desc(ctx: &mut Ctx, d: &Desc) {
 
     // ---- write-back: a packet the library accepted, written again with its header, must be a
     // legal framing whose lengths match the bytes that follow and which carries the same body
-    if d.trunc == 0 && stream.len() <= 20_000 {
+    if d.trunc == 0 && (stream.len() <= 20_000 || d.rest == 0) {
         let wb = guarded(|| {
             use pgp::packet::PacketTrait;
             let mut src: &[u8] = &stream;
@@ -253,6 +253,37 @@ pub fn run(ctx: &mut Ctx) {
                     run_desc(ctx, &Desc { fmt, tag, kind: "indet", form: 0, segs: vec![], seed, len, rest: 0, trunc: 0 });
                 }
             }
+        }
+    }
+    // the writer on packets built through the public API, at every length-encoding boundary, in
+    // both header formats: the header must announce exactly the body that follows
+    for (vi, ver) in [pgp::types::PacketHeaderVersion::Old, pgp::types::PacketHeaderVersion::New].into_iter().enumerate() {
+        for len in [0usize, 1, 2, 190, 191, 192, 193, 254, 255, 256, 257, 8382, 8383, 8384, 8385, 65534, 65535, 65536, 65537, 70000] {
+            let id = "u".repeat(len);
+            let r = guarded(|| {
+                use pgp::packet::PacketTrait;
+                let uid = pgp::packet::UserId::from_str(ver, &id).ok()?;
+                let mut out = Vec::new();
+                uid.to_writer_with_header(&mut out).ok()?;
+                Some((out, uid.write_len_with_header()))
+            });
+            let req = format!("writer fmt={vi} tag=13 len={len}");
+            match r {
+                Ok(Some((mut written, announced))) => {
+                    let wlen = written.len();
+                    written.extend_from_slice(b"\xCA\x03PGP");
+                    let (a1, g1) = real_deframe(&written);
+                    let ok = matches!(&g1, Some((b, r1)) if b.len() == len && b.iter().all(|c| *c == b'u') && r1.as_slice() == b"\xCA\x03PGP");
+                    ctx.oracle("writer_emits_legal_framing", "UserId::to_writer_with_header (PacketHeader::from_parts + Serialize)", &req, ok && announced == wlen,
+                        &format!("written {} announced {announced} len {wlen} reparse {}", hx(&written[..written.len().min(12)]), &a1[..a1.len().min(60)]));
+                    // correspondence: the model's deframe on the written header + a short body digest
+                    if len <= 1000 {
+                        ctx.case(format!("deframe data={}", hx(&written)), a1);
+                    }
+                }
+                _ => ctx.oracle("writer_emits_legal_framing", "UserId::to_writer_with_header", &req, false, "could not build / write"),
+            }
+            ctx.stat("writer_boundary");
         }
     }
     // partial: legal and illegal chunk sequences
